@@ -59,12 +59,31 @@ def sim(m, kind, cur, op):
 
 
 # ------------------------------------------------------------------ implementation
-def _concept_objects(case):
+def _listing(case, k):
+    """The order in which the extent of concept #k is listed when the object is (re-)created."""
+    return list(case.get('listing', {}).get('perm', {}).get(str(k), case['extents'][k]))
+
+
+def _concept_objects(case, only=None):
+    """Concept objects of the case, built by the direct constructor or by
+    FormalConcept.from_objects(listing, K, is_extent=True); for a random subset of the concepts the
+    extent is listed in a permuted (not ascending) order."""
     from fcapy.lattice.formal_concept import FormalConcept
-    objs = []
-    for ext, itn in zip(case['extents'], case['intents']):
-        objs.append(FormalConcept(tuple(ext), tuple('g%d' % g for g in ext),
-                                  tuple(itn), tuple('m%d' % a for a in itn)))
+    mode = case.get('listing', {}).get('mode', 'ctor')
+    K = None
+    if mode == 'from_objects' or only is not None:
+        from fcapy.context import FormalContext
+        K = FormalContext(data=[list(r) for r in case['table']])
+    objs = {}
+    for k, (ext, itn) in enumerate(zip(case['extents'], case['intents'])):
+        if only is not None and k not in only:
+            continue
+        lst = _listing(case, k)
+        if K is not None:
+            objs[k] = FormalConcept.from_objects(lst, K, is_extent=True)
+        else:
+            objs[k] = FormalConcept(tuple(lst), tuple('g%d' % g for g in lst),
+                                    tuple(itn), tuple('m%d' % a for a in itn))
     return objs
 
 
@@ -84,20 +103,24 @@ def run_impl(case):
             kw = {} if case['algo'] is None else {'algo': case['algo']}
             p = ConceptLattice.from_context(K, **kw)
             ids = {tuple(e): k for k, e in enumerate(case['extents'])}
-            objs = {ids.get(tuple(c.extent_i), 900 + i): c for i, c in enumerate(p.elements)}
-            init = [ids.get(tuple(c.extent_i), 900 + i) for i, c in enumerate(p.elements)]
+            key = lambda c: tuple(sorted(c.extent_i))     # noqa
+            objs = {ids.get(key(c), 900 + i): c for i, c in enumerate(p.elements)}
+            init = [ids.get(key(c), 900 + i) for i, c in enumerate(p.elements)]
+            # some concepts are handed over as re-created, equal objects with a permuted extent listing
+            perm = [int(x) for x in case.get('listing', {}).get('perm', {})]
+            objs.update(_concept_objects(case, only=set(perm)))
             if sorted(init) != list(range(len(case['extents']))):
                 ops = []                                  # not the full concept set (e.g. Sofia's limit): no history
             enc = lambda e: objs[e]                       # noqa
-            dec = lambda o: ids.get(tuple(o.extent_i), 999)   # noqa
+            dec = lambda o: ids.get(tuple(sorted(o.extent_i)), 999)   # noqa
             mk_other = lambda els, oc: ConceptLattice(els)   # noqa
             leq = None
         elif case.get('level') == 'concept':
             from fcapy.lattice import ConceptLattice
             objs = _concept_objects(case)
-            ids = {o.extent_i: k for k, o in enumerate(objs)}
+            ids = {tuple(e): k for k, e in enumerate(case['extents'])}
             enc = lambda e: objs[e]                      # noqa
-            dec = lambda o: ids[o.extent_i]              # noqa
+            dec = lambda o: ids[tuple(sorted(o.extent_i))]   # noqa
             mk_other = lambda els, oc: ConceptLattice(els)   # noqa
             leq = None
             try:
@@ -317,6 +340,20 @@ def concept_case(rng, max_concepts, min_concepts=3, dim=4, want_nongraded=False)
                                                              'concepts-large-nongraded')}
 
 
+def add_listing(rng, case):
+    """A random subset of the concepts is (re-)created with a permuted extent listing."""
+    perm = {}
+    for k, ext in enumerate(case['extents']):
+        if len(ext) >= 2 and rng.random() < 0.5:
+            l = list(ext)
+            while l == list(ext):
+                rng.shuffle(l)
+            perm[str(k)] = l
+    case['listing'] = {'mode': rng.choice(['ctor', 'from_objects']) if case['level'] == 'concept' else 'from_objects',
+                       'perm': perm}
+    return case
+
+
 def fromctx_case(rng, big):
     """Start from ConceptLattice.from_context (default algorithm = Lindig, CbO or Sofia), then a
     history of removals and re-insertions (with and without cache filling, which drops the
@@ -371,12 +408,14 @@ def generate(rng, tier):
         cases.append(poset_case(rng, max_ops))
     for _ in range(n_ctor):
         cases.append(ctor_refusal_case(rng))
+    def listed(c):                # half of the concept-level cases use permuted extent listings
+        return add_listing(rng, c) if rng.random() < 0.5 else c
     for _ in range(n_conc):
-        cases.append(concept_case(rng, max_conc))
+        cases.append(listed(concept_case(rng, max_conc)))
     for i in range(n_ctx):        # start states built by from_context, < 10 and >= 10 concepts
-        cases.append(fromctx_case(rng, big=(i % 4 == 3)))
+        cases.append(listed(fromctx_case(rng, big=(i % 4 == 3))))
     for i in range(n_big):        # larger lattices: 10-16 concepts, two thirds of them not graded
-        cases.append(concept_case(rng, 16, min_concepts=10, dim=6, want_nongraded=(i % 3 != 0)))
+        cases.append(listed(concept_case(rng, 16, min_concepts=10, dim=6, want_nongraded=(i % 3 != 0))))
     return cases
 
 
@@ -405,6 +444,7 @@ def stats(case):
     return {'class': case['kind'] if case.get('level') not in ('concept', 'fromctx') else
             ('ConceptLattice' if case.get('level') == 'concept' else 'ConceptLattice.from_context(%s)' % case.get('algo')),
             'has_nofill_readd': any(o[0] == 'add' and not o[2] for o in case['ops']),
+            'extent_listing': (case['listing']['mode'] + ('-permuted' if case['listing']['perm'] else '')) if case.get('listing') else 'ascending',
             'order': case.get('okind', ''), 'carriers': len(case['matrix']), 'cache': case['cache'],
             'children_dict': bool(case.get('cd')),
             'ctor': 'ok' if ctor_ok(case['matrix'], case['kind'], case['init']) else 'refused',
